@@ -106,6 +106,14 @@ CHECKS = {
         "The selector transport is FakeAsyncioTransport (mirrors CPython 3.12 callback order); TLS layer runs over the in-memory transport.",
         "DESIGN.md section 3 C10",
     ),
+    "C12": (
+        "exploration",
+        "property-based schedule generation on a virtual loop (owned interleavings of N senders over a transport that suspends and commits partially) + randomized real-thread stress; wire re-parsed against the set of successful sends",
+        "2-5 concurrent senders on AsyncTCPNetworkClient, the server-side client of a running AsyncTCPNetworkServer, AsyncTLSStreamTransport and the raw endpoint (BusyResourceError instead of interleaving), with the in-memory transport suspending mid-packet; "
+        "TCPNetworkClient/UDPNetworkClient from real threads over loopback with tiny SO_SNDBUF. Each successful packet appears contiguously exactly once, per-sender order kept, lock hand-off FIFO.",
+        "Thread layer: OS-owned schedule (randomised stress, oracle sound under any interleaving; timing overruns are inconclusive).",
+        "DESIGN.md section 3 C12",
+    ),
 }
 
 PENDING = {}
